@@ -180,6 +180,7 @@ package prover
 
 //@ func (*InsertionMbuCircuit) Define
 //@   property C03 C01 C12
+//@   requires circuit.BatchSize <= 4294967295
 //@   requires circuit.BatchSize >= 0 && len(circuit.IdComms) == circuit.BatchSize && len(circuit.MerkleProofs) == circuit.BatchSize
 //@   requires forall j :: 0 <= j && j < circuit.BatchSize ==> len(circuit.MerkleProofs[j]) == circuit.Depth
 //@   requires 0 <= circuit.Depth && circuit.Depth <= 32
@@ -192,7 +193,7 @@ package prover
 //@   ensures[A] api.ok ==> ok0 && circuit.StartIndex < 4294967296 && hashOK && merkleOK
 //@   ensures[H] api.ok == (ok0 && circuit.StartIndex < 4294967296 && hashOK && merkleOK)
 //@   ensures result == nil
-//@   lemmas pow2_32 pow2_256 bit_bool allboolFrom_intro keccak_ext digest_bool insBits_sel
+//@   lemmas pow2_32 pow2_256 bit_bool allboolFrom_intro keccak_ext digest_bool insBits_sel beval_ext allboolFrom_ext
 //@   loop 1
 //@     invariant 0 <= i && i <= B
 //@     invariant len(bits) == 544 + 256 * i
@@ -206,9 +207,12 @@ package prover
 //@   assert@loop1[H] bits.allboolFrom(bits, 0, n)
 //@   assert@loop1[A] api.ok ==> keccak.digest(bits, n, 1) == keccak.digest(msg, n, 1)
 //@   assert@loop1[H] keccak.digest(bits, n, 1) == keccak.digest(msg, n, 1)
+//@   assert@def:hash api.ok ==> bits.allboolFrom(hash, 0, 256)
+//@   assert@def:hash api.ok ==> pack.beval(hash, 256) == pack.beval(keccak.digest(bits, n, 1), 256)
 
 //@ func (*DeletionMbuCircuit) Define
 //@   property C03 C02 C12
+//@   requires circuit.BatchSize <= 4294967295
 //@   requires circuit.BatchSize >= 0 && len(circuit.IdComms) == circuit.BatchSize && len(circuit.MerkleProofs) == circuit.BatchSize
 //@   requires len(circuit.DeletionIndices) == circuit.BatchSize
 //@   requires forall j :: 0 <= j && j < circuit.BatchSize ==> len(circuit.MerkleProofs[j]) == circuit.Depth
@@ -224,7 +228,7 @@ package prover
 //@   ensures circuit.Depth <= 31 ==> result == nil
 //@   ensures[A] circuit.Depth <= 31 ==> (api.ok ==> ok0 && idxOK && hashOK && merkleOK)
 //@   ensures[H] circuit.Depth <= 31 ==> (api.ok == (ok0 && idxOK && hashOK && merkleOK))
-//@   lemmas pow2_32 pow2_256 bit_bool allboolFrom_intro keccak_ext digest_bool delBits_sel
+//@   lemmas pow2_32 pow2_256 bit_bool allboolFrom_intro keccak_ext digest_bool delBits_sel beval_ext allboolFrom_ext
 //@   loop 1
 //@     invariant 0 <= i && i <= B
 //@     invariant len(bits) == 32 * i
@@ -236,6 +240,8 @@ package prover
 //@   assert@def:hash len(bits) == n
 //@   assert@def:hash[A] api.ok ==> keccak.digest(bits, n, 1) == keccak.digest(msg, n, 1)
 //@   assert@def:hash[H] keccak.digest(bits, n, 1) == keccak.digest(msg, n, 1)
+//@   assert@def:hash api.ok ==> bits.allboolFrom(hash, 0, 256)
+//@   assert@def:hash api.ok ==> pack.beval(hash, 256) == pack.beval(keccak.digest(bits, n, 1), 256)
 
 // ---------------------------------------------------------------------------------------
 // C08 — off-chain input-hash helpers: Keccak-256 of the fixed-width big-endian packing
